@@ -154,6 +154,8 @@ type c08Case struct {
 	// IncEdited: the included file is open with unsaved edits (its saved text
 	// has five more lines at the top)
 	IncEdited bool `json:"included_file_open_with_unsaved_edits,omitempty"`
+	// Discarded: an unsaved edit of the included file was looked at and discarded
+	Discarded bool `json:"edit_of_included_file_discarded,omitempty"`
 }
 
 var hoverKind = regexp.MustCompile("^\\*\\*(Account|Amount|Payee|Date|Tag):\\*\\* ?`?([^`\n]*)`?")
@@ -240,6 +242,7 @@ func checkC08(c *core.Ctx) {
 			c.Res.InfraError = "bad replay: " + err.Error()
 			return
 		}
+		c08Discarded = cs.Discarded
 		c08Pass(c, cs.IncEdited)
 		return
 	}
@@ -248,7 +251,17 @@ func checkC08(c *core.Ctx) {
 		// the same sweep with the included file open and edited without saving
 		c08Pass(c, true)
 	}
+	if !c.Expired() {
+		// and after such an edit was looked at and then discarded by closing the file
+		c08Discarded = true
+		c08Pass(c, false)
+		c08Discarded = false
+	}
 }
+
+// c08Discarded: before the sweep the included file was opened, edited (five
+// more lines at the top), used by a cross-file request and closed unsaved.
+var c08Discarded bool
 
 func c08Pass(c *core.Ctx, incEdited bool) {
 	dir := filepath.Join(c.Scratch, "c08")
@@ -278,6 +291,26 @@ func c08Pass(c *core.Ctx, incEdited bool) {
 	s.Initialize(wire.InitOpts{})
 	s.Initialized()
 	modeTag := ""
+	discardText, discardSwept := "", false
+	if c08Discarded {
+		shifted := "; unsaved 1\n; unsaved 2\n; unsaved 3\n; unsaved 4\n; unsaved 5\n" + incRd.Text
+		dj := gmodel.Default()
+		dtext := "include inc.journal\n\n" + dj.Render().Text
+		_ = os.WriteFile(mainPath, []byte(dtext), 0o644)
+		discardText = dtext
+		s.DidOpen(mainURI, dtext)
+		s.DidOpen(incURI, incRd.Text)
+		s.DidChangeFull(incURI, shifted, 2)
+		for _, sp := range dj.Render().Spans {
+			if sp.Kind == "account" {
+				s.Call("textDocument/references", fmt.Sprintf(`{"textDocument":{"uri":%s},"position":{"line":%d,"character":%d},"context":{"includeDeclaration":true}}`, wire.Q(mainURI), sp.Line+2, sp.U0))
+				break
+			}
+		}
+		s.DidClose(incURI)
+		modeTag = "|after an unsaved edit of the included file was discarded"
+		// main stays open: it is not analysed again before the first journal of the sweep replaces its text
+	}
 	if incEdited {
 		s.DidOpen(incURI, incDisk)
 		s.DidChangeFull(incURI, incRd.Text, 2)
@@ -294,7 +327,13 @@ func c08Pass(c *core.Ctx, incEdited bool) {
 		rd := withInc.Render()
 		text := rd.Text
 		_ = os.WriteFile(mainPath, []byte(text), 0o644)
-		s.DidOpen(mainURI, text)
+		if c08Discarded && !discardSwept && text == discardText {
+			// the document is still open from the discarded-edit prelude: it is
+			// swept as it is, without a new analysis
+			discardSwept = true
+		} else {
+			s.DidOpen(mainURI, text)
+		}
 		bufs := map[string]*refbuf.Buffer{mainURI: refbuf.New(text), incURI: refbuf.New(incRd.Text)}
 		rds := map[string]*gmodel.Rendered{mainURI: rd, incURI: incRd}
 		devNames := gmodel.DevNames(applied)
@@ -320,7 +359,7 @@ func c08Pass(c *core.Ctx, incEdited bool) {
 				}
 			}
 			c.Violate(fmt.Sprintf("%s|%s|%s|%s%s", feature, clause, class, devNames, modeTag), feature+": "+clause,
-				fmt.Sprintf("%s at %d:%d\n%s\n--- document:\n%s", feature, line, char, detail, text), c08Case{devNames, text, feature, line, char, incEdited})
+				fmt.Sprintf("%s at %d:%d\n%s\n--- document:\n%s", feature, line, char, detail, text), c08Case{devNames, text, feature, line, char, incEdited, c08Discarded})
 		}
 
 		validate := func(feature string, res string, line, char int) []foundRange {
